@@ -832,13 +832,24 @@ where
                     // FIXME: separate obtaining the fid from creating the File.
                     // FIXME: maybe integrate locking into the File object?
                     f.refresh(&mut ptx)?;
-                    let job = BuildJob {
+                    let job = match (BuildJob {
                         t: t.into(),
                         sf: f,
                         lock,
                         should_build_func: should_build_func.clone(),
-                    }
-                    .start(ps_ref.clone(), ptx, server)?;
+                    })
+                    .start(ps_ref.clone(), ptx, server)
+                    {
+                        Ok(job) => job,
+                        Err(e) if is_cyclic(&e) => return Err(e),
+                        Err(e) => {
+                            // This target cannot even be started (its .do file
+                            // is unreadable, ...): its failure, not the end of
+                            // the whole command.
+                            result.set(Err(e));
+                            continue;
+                        }
+                    };
                     let t = t.to_string();
                     let result = &result;
                     job_futures.push(Box::pin(async move {
@@ -933,13 +944,21 @@ where
                     lock.unlock()?;
                 } else {
                     let sf = state::File::from_id(&mut ptx, fid)?;
-                    let job = BuildJob {
+                    let job = match (BuildJob {
                         t: t.to_redo_path_buf(),
                         sf,
                         lock,
                         should_build_func: should_build_func.clone(),
-                    }
-                    .start(ps_ref.clone(), ptx, server)?;
+                    })
+                    .start(ps_ref.clone(), ptx, server)
+                    {
+                        Ok(job) => job,
+                        Err(e) if is_cyclic(&e) => return Err(e),
+                        Err(e) => {
+                            result.set(Err(e));
+                            continue;
+                        }
+                    };
                     let t = t.to_string();
                     let result = &result;
                     job_futures.push(Box::pin(async move {
@@ -982,6 +1001,20 @@ where
         server.ensure_token_or_cheat("exit", &mut cheat).await?;
     }
     result.replace(Ok(()))
+}
+
+/// Reports whether a [`RedoErrorKind::CyclicDependency`] is in the error chain.
+fn is_cyclic(e: &RedoError) -> bool {
+    let mut next: Option<&(dyn std::error::Error + 'static)> = Some(e);
+    while let Some(e) = next {
+        next = e.source();
+        if let Some(&RedoErrorKind::CyclicDependency) =
+            e.downcast_ref::<RedoError>().map(RedoError::kind)
+        {
+            return true;
+        }
+    }
+    false
 }
 
 /// Returns the exit code of the first [`RedoErrorKind::ImmediateExit`] in the error chain.
